@@ -9,7 +9,7 @@ DEFS = ['CV_F_STATE_AT(p) (((FUT *)(p))->base_future_common._state)', 'CV_F_VALU
 def unit(name, alias, rx, names=None, boundary=(), **kw):
     nm = {alias: rx}; nm.update(names or {})
     d = dict(name=name, driver='c01_future.cpp', roots=[rx], names=nm, names_opt={'aw_resume_chain_lk': RC_LK, 'sp_suspend_now': SN}, types=TYPES, globals=GLOBALS, boundary=[RC_LK, SN] + list(boundary), lib=LIBS,
-             spec=['C01/f_spec.h', 'C01/h_f.c'], harness='h_' + name, enforce=alias, defines=DEFS, under_contract=[rx.strip('^$').replace('\\', '')])
+             spec=['C01/f_spec.h', 'C01/h_f.c'], harness='h_' + name, enforce=alias, defines=DEFS, cbmc_flags=['--sat-solver', 'cadical'], solver='sat(cadical)', timeout=900, under_contract=[rx.strip('^$').replace('\\', '')])
     d.update(kw)
     return d
 def plain(name, alias, rx, **kw):
